@@ -32,17 +32,19 @@ macro_rules! step {
 pub fn c20_owned_forms() {
     let mut a = OwnedRegion::<u8>::default();
     let mut b = OwnedRegion::<u8>::default();
-    let v: [[u8; 2]; 8] = [sym::bytes::<2>(), sym::bytes::<2>(), sym::bytes::<2>(), sym::bytes::<2>(), sym::bytes::<2>(), sym::bytes::<2>(), sym::bytes::<2>(), sym::bytes::<2>()];
-    let i0 = step!(a, b, v[0].as_slice(), v[0].as_slice());
-    let _ = step!(a, b, &v[1].as_slice(), v[1].as_slice());
-    let _ = step!(a, b, v[2], v[2].as_slice());
-    let _ = step!(a, b, &v[3], v[3].as_slice());
-    let _ = step!(a, b, &&v[4], v[4].as_slice());
-    let _ = step!(a, b, v[5].to_vec(), v[5].as_slice());
-    let _ = step!(a, b, &v[6].to_vec(), v[6].as_slice());
-    let i7 = step!(a, b, PushIter(v[7].iter().copied()), v[7].as_slice());
+    let (v0, v1, v2, v3) = (sym::bytes::<2>(), sym::bytes::<2>(), sym::bytes::<2>(), sym::bytes::<2>());
+    let (v4, v5, v6, v7) = (sym::bytes::<2>(), sym::bytes::<2>(), sym::bytes::<2>(), sym::bytes::<2>());
+    let i0 = step!(a, b, v0.as_slice(), v0.as_slice());
+    let _ = step!(a, b, &v1.as_slice(), v1.as_slice());
+    let _ = step!(a, b, v2, v2.as_slice());
+    let _ = step!(a, b, &v3, v3.as_slice());
+    let _ = step!(a, b, &&v4, v4.as_slice());
+    let _ = step!(a, b, v5.to_vec(), v5.as_slice());
+    let _ = step!(a, b, &v6.to_vec(), v6.as_slice());
+    let i7 = step!(a, b, PushIter(v7.iter().copied()), v7.as_slice());
     assert!(a.index(i0) == b.index(i0) && a.index(i7) == b.index(i7), "C20: reads differ between mixed and canonical history");
-    assert!(same_bytes(a.index(i7), &v[7]), "C20: item pushed as an iterator reads differently");
+    let x7 = a.index(i7);
+    assert!(x7.len() == 2 && x7[0] == v7[0] && x7[1] == v7[1], "C20: item pushed as an iterator reads differently");
     let j = sym::usize();
     sym::assume(j < 16);
     assert!(a.index((0, 16))[j] == b.index((0, 16))[j], "C20: stored bytes differ between mixed and canonical history");
@@ -130,24 +132,35 @@ pub fn c20_slice_forms() {
 
 type CR = ColumnsRegion<MirrorRegion<u8>>;
 
-// @h prop=C20 tier=quick kind=proof inst="ColumnsRegion<MirrorRegion<u8>>: &[u8], [u8;N], &[u8;N], Vec<u8>, &Vec<u8>, PushIter, ReadColumns (region-backed)" bounds="7 steps, one form each, rows of 2 symbolic cells" desc="mixed-form history == canonical-form history"
+// @h prop=C20 tier=quick kind=proof inst="ColumnsRegion<MirrorRegion<u8>>: &[u8], [u8;N], &[u8;N], Vec<u8>" bounds="4 steps, one form each, rows of 2 symbolic cells" desc="mixed-form history == canonical-form history"
 #[cfg_attr(kani, kani::proof, kani::unwind(12))]
-pub fn c20_columns_forms() {
+pub fn c20_columns_forms_a() {
     let mut a = CR::default();
     let mut b = CR::default();
-    let v: [[u8; 2]; 7] = core::array::from_fn(|_| sym::bytes::<2>());
-    let mut other = CR::default();
-    let io = other.push(v[6].as_slice());
+    let v: [[u8; 2]; 4] = core::array::from_fn(|_| sym::bytes::<2>());
     let _ = step!(a, b, v[0].as_slice(), v[0].as_slice());
     let _ = step!(a, b, v[1], v[1].as_slice());
-    let _ = step!(a, b, &v[2], v[2].as_slice());
-    let _ = step!(a, b, v[3].to_vec(), v[3].as_slice());
-    let vv = v[4].to_vec();
-    let _ = step!(a, b, &vv, v[4].as_slice());
-    let i5 = step!(a, b, PushIter(v[5]), v[5].as_slice());
-    let i6 = step!(a, b, other.index(io), v[6].as_slice());
-    assert!(a.index(i5).get(0) == v[5][0] && a.index(i5).get(1) == v[5][1], "C20: row pushed as an iterator reads differently");
-    assert!(a.index(i6).get(0) == v[6][0] && a.index(i6).get(1) == v[6][1] && a.index(i6).len() == 2, "C20: row pushed as a read item reads differently");
+    let i2 = step!(a, b, &v[2], v[2].as_slice());
+    let i3 = step!(a, b, v[3].to_vec(), v[3].as_slice());
+    assert!(a.index(i2).get(1) == v[2][1] && a.index(i3).get(0) == v[3][0] && a.index(i3).len() == 2, "C20: row pushed in another form reads differently");
+    cover!(true, "end reached");
+    sym::forget((a, b));
+}
+
+// @h prop=C20 tier=quick kind=proof inst="ColumnsRegion<MirrorRegion<u8>>: &Vec<u8>, PushIter, ReadColumns (region-backed)" bounds="3 steps, one form each, rows of 2 symbolic cells" desc="mixed-form history == canonical-form history"
+#[cfg_attr(kani, kani::proof, kani::unwind(12))]
+pub fn c20_columns_forms_b() {
+    let mut a = CR::default();
+    let mut b = CR::default();
+    let v: [[u8; 2]; 3] = core::array::from_fn(|_| sym::bytes::<2>());
+    let mut other = CR::default();
+    let io = other.push(v[2].as_slice());
+    let vv = v[0].to_vec();
+    let _ = step!(a, b, &vv, v[0].as_slice());
+    let i5 = step!(a, b, PushIter(v[1]), v[1].as_slice());
+    let i6 = step!(a, b, other.index(io), v[2].as_slice());
+    assert!(a.index(i5).get(0) == v[1][0] && a.index(i5).get(1) == v[1][1], "C20: row pushed as an iterator reads differently");
+    assert!(a.index(i6).get(0) == v[2][0] && a.index(i6).get(1) == v[2][1] && a.index(i6).len() == 2, "C20: row pushed as a read item reads differently");
     cover!(true, "end reached");
     sym::forget((a, b, other));
 }
